@@ -190,6 +190,25 @@ func (r *renderer) endURL() {
 	r.removeQuestionMark = false
 }
 
+// convWriter wraps the writer passed to the Markdown converter and records
+// the first error returned by a call to Write, so that it can be reported as
+// an output error instead of a conversion error.
+type convWriter struct {
+	w   io.Writer
+	err error
+}
+
+func (cw *convWriter) Write(b []byte) (int, error) {
+	if cw.err != nil {
+		return 0, cw.err
+	}
+	n, err := cw.w.Write(b)
+	if err != nil {
+		cw.err = err
+	}
+	return n, err
+}
+
 type strWriterWrapper struct {
 	w io.Writer
 }
